@@ -600,6 +600,7 @@ type fcase struct {
 	cls          *fres
 	parsed       *fres // result of ParseSource on the source text (nil when there is no source form to compare)
 	cmpSrc       bool
+	cform        string // the class-level call as a Facade.cform term ("" = none)
 	form         string
 	size         int
 	predClass    string // "", "ok", "VIOLATED: ..."
@@ -616,8 +617,12 @@ func (c *fcase) gallina() string {
 	if c.cmpSrc {
 		b = "true"
 	}
-	return fmt.Sprintf("{| fc_kind := %s; fc_tk := %s; fc_tv := %s;\n   fc_args := %s;\n   fc_mod := %s;\n   fc_cls := %s;\n   fc_src := %s |}",
-		c.kind, c.tk, c.tv, encList(c.args), c.mod.term(), cls, b)
+	form := "None"
+	if c.cform != "" && c.cls != nil {
+		form = "(Some " + c.cform + ")"
+	}
+	return fmt.Sprintf("{| fc_kind := %s; fc_tk := %s; fc_tv := %s;\n   fc_args := %s;\n   fc_mod := %s;\n   fc_cls := %s;\n   fc_form := %s;\n   fc_src := %s |}",
+		c.kind, c.tk, c.tv, encList(c.args), c.mod.term(), cls, form, b)
 }
 
 func (c *fcase) trace() []string {
@@ -998,6 +1003,20 @@ func runSeqCell(o *seqOps, cell seqCell, n int, npos int, r *rng, malformed int)
 		}, func(x any) int { return o.collID(x, collCls) })
 		c.cls = &res
 		c.predClass = predicateClass(c.mod, res, false)
+		switch classForm {
+		case "none":
+			c.cform = "CMake"
+		case "size":
+			c.cform = fmt.Sprintf("(CSize %d%%nat)", n)
+		case "slice":
+			c.cform = "(CFromArray " + encList(encAnys(vals)) + ")"
+		case "seq":
+			c.cform = "(CFromSeq " + encList(encAnys(dataOrder)) + ")"
+		case "coll":
+			c.cform = fmt.Sprintf("(CWithCollator %d%%nat [])", collID)
+		case "coll+data":
+			c.cform = fmt.Sprintf("(CWithCollator %d%%nat %s)", collID, encList(encAnys(clsVals)))
+		}
 	}
 	if c.cmpSrc && c.parsed != nil {
 		c.predSource = predicateSource(c.mod, *c.parsed, cell.kind == "Set")
@@ -1021,6 +1040,7 @@ func runPairCell(o *pairOps, cell pairCell, n int, npos int, r *rng, malformed i
 	var classForm string
 	var classData any
 	unordered := false
+	dataPairs := "[]"
 	pairLits := func(ks, vs []any) string {
 		items := make([]string, len(ks))
 		for i := range ks {
@@ -1042,6 +1062,7 @@ func runPairCell(o *pairOps, cell pairCell, n int, npos int, r *rng, malformed i
 		m := o.gomap(ks, vs)
 		ps := pairsOf(reflect.ValueOf(m), true)
 		args = append(args, m)
+		dataPairs = encPairs(ps)
 		encs = append(encs, "(AGoMap "+encPairs(ps)+" @ORACLE@)")
 		oracleAt = len(encs) - 1
 		lits = append(lits, "map["+o.kname+"]"+o.vname+"{"+pairLits(ks, vs)+"}")
@@ -1051,6 +1072,7 @@ func runPairCell(o *pairOps, cell pairCell, n int, npos int, r *rng, malformed i
 	addASlice := func(ks, vs []any) {
 		s := o.aslice(ks, vs)
 		args = append(args, s)
+		dataPairs = encKV(ks, vs)
 		encs = append(encs, "(AAssocSlice "+encKV(ks, vs)+")")
 		lits = append(lits, "[]Association["+o.kname+","+o.vname+"]{"+pairLits(ks, vs)+"}")
 		classData = s
@@ -1060,6 +1082,7 @@ func runPairCell(o *pairOps, cell pairCell, n int, npos int, r *rng, malformed i
 		rv := reflect.ValueOf(s)
 		isMap := kind == "Map"
 		ps := pairsOf(rv, isMap)
+		dataPairs = encPairs(ps)
 		args = append(args, s)
 		if isMap {
 			encs = append(encs, "(AAssocSeq "+encPairs(ps)+" @ORACLE@)")
@@ -1097,8 +1120,8 @@ func runPairCell(o *pairOps, cell pairCell, n int, npos int, r *rng, malformed i
 		classForm = "aseq"
 	case "source":
 		k := cell.kind
-		if malformed == 0 && r.chance(1, 8) {
-			k = pick(r, []string{"Catalog", "Map"})
+		if malformed == 0 && cell.kind == "Map" && r.chance(1, 6) {
+			k = "Catalog" // a parsed catalog is a sequence of associations too (the other direction has no specified order)
 		}
 		addSource(ks, vs, k)
 		c.cmpSrc = true
@@ -1188,6 +1211,25 @@ func runPairCell(o *pairOps, cell pairCell, n int, npos int, r *rng, malformed i
 		res := facadeCall(func() any { return o.class(cell.kind, classForm, cdc.Notation().Make(), classData, nil, nil) }, nil)
 		c.cls = &res
 		c.predClass = predicateClass(c.mod, res, unordered)
+		// unordered data: the class-level call iterates in an order of its own, taken from ITS result
+		oracle := "[]"
+		if res.oc == ocRet && cell.kind == "Catalog" {
+			oracle = encList(res.ob.keys)
+		}
+		switch classForm {
+		case "none":
+			c.cform = "CMake"
+		case "gomap":
+			c.cform = "(CFromMap (ordered " + dataPairs + " " + oracle + "))"
+		case "aslice":
+			c.cform = "(CFromAssocArray " + dataPairs + ")"
+		case "aseq":
+			if unordered {
+				c.cform = "(CFromAssocSeq (ordered " + dataPairs + " " + oracle + "))"
+			} else {
+				c.cform = "(CFromAssocSeq " + dataPairs + ")"
+			}
+		}
 	}
 	if c.cmpSrc && c.parsed != nil {
 		c.predSource = predicateSource(c.mod, *c.parsed, false)
